@@ -77,6 +77,35 @@ func (fr *frame) callWithArgs(st *state, c *ssa.CallCommon, instr ssa.Instructio
 		}
 	}
 	res := fr.callWithArgs1(st, c, instr, pos, args)
+	if cls, ok := fr.fc.c.After[text]; ok && instr != nil {
+		if fr.fc.atHit == nil {
+			fr.fc.atHit = map[string]bool{}
+		}
+		fr.fc.atHit["after:"+text] = true
+		env := fr.specEnv(st, fr.old)
+		for k, v := range fr.localsAt(instr.Block()) {
+			if _, ok := env.vars[k]; !ok {
+				env.vars[k] = v
+			}
+		}
+		sig := c.Signature()
+		for i := 0; i < sig.Results().Len() && i < len(res); i++ {
+			rt := sig.Results().At(i).Type()
+			tv := TV{T: res[i], Sort: fr.fc.e.u.sortOf(rt), Typ: rt}
+			env.vars[fmt.Sprintf("r%d", i)] = tv
+			if i == 0 {
+				env.vars["result"] = tv
+			}
+		}
+		fr.evalBlock = instr.Block()
+		for i, cl := range cls {
+			label := cl.Label
+			if label == "" {
+				label = fmt.Sprintf("c%d", i+1)
+			}
+			fr.oblige(st, "at", text+".after."+label, pos, env.evalBool(cl.Expr, cl.Src), cl.Src)
+		}
+	}
 	if fr.top && fr.fc.c.Propagates {
 		sig := c.Signature()
 		if n := sig.Results().Len(); n > 0 && isErrorType(sig.Results().At(n-1).Type()) && len(res) == n {
